@@ -9,6 +9,8 @@ def run(ctx):
     variable_get(ctx)
     from ..scen_misc import functional
     functional(ctx)
+    from ..scen_kernels2 import binding_forms
+    binding_forms(ctx)       # (set n v e) / (define n m e): e in exactly the context derived by binding n (to the value / to the getter itself)
     from ..scen_purity import getter_purity
     getter_purity(ctx)       # a getter that keeps state (cell, thread-local, static) must still be a function of its arguments
     from ..conform import conformance
